@@ -832,3 +832,84 @@ func TestZZVerifC06Trace(t *testing.T) {
 		w.put(map[string]any{"lvl": "filt", "tab": tab, "qs": obs, "table": lines})
 	}
 }
+
+// ---------------------------------------------------------------------- probe
+
+// zzC06ProbeIn is one (table, query) to evaluate alone: used to reproduce a
+// rejected trace observation in isolation and by ./check C06 --replay.
+type zzC06ProbeIn struct {
+	Tab   []zzC06Entry `json:"tab"`
+	H     []string     `json:"h"`
+	QT    string       `json:"qt"`
+	Query string       `json:"query"`
+	// Want are admissible outcomes (direction A records) ...
+	Want []zzC06Out `json:"want"`
+	// ... or Expect are admissible projections (trace records).
+	Expect []struct {
+		R     string   `json:"r"`
+		Canon []string `json:"canon"`
+		IPs   []string `json:"ips"`
+	} `json:"expect"`
+}
+
+// TestZZVerifC06Probe evaluates every input line alone on a fresh filter.
+func TestZZVerifC06Probe(t *testing.T) {
+	w := zzNewWriter(t, "VERIF_OUT")
+	defer w.close()
+
+	conc := zzC06NewConc(zzSeed())
+	dataDir := t.TempDir()
+	i := 0
+	zzReadNDJSON(t, "VERIF_IN", func(line []byte) {
+		in := &zzC06ProbeIn{}
+		if err := json.Unmarshal(line, in); err != nil {
+			t.Fatalf("bad probe: %v", err)
+		}
+
+		i++
+		if in.Query == "" {
+			in.Query = zzC06Name(in.H)
+		}
+
+		want := in.Want
+		for _, e := range in.Expect {
+			ips := append([]string{}, e.IPs...)
+			sort.Strings(ips)
+			want = append(want, zzC06Out{R: e.R, Canon: e.Canon, IPs: ips})
+		}
+
+		order := make([]int, len(in.Tab))
+		for j := range order {
+			order[j] = j
+		}
+
+		typ := zzC06QTypes[in.QT]
+		var got zzC06Got
+		fin := zzC06Watch(20*time.Second, func() {
+			d, err := conc.filter(dataDir, in.Tab, order)
+			if err != nil {
+				got = zzC06Got{R: "error", Err: err.Error(), IPs: []string{}}
+
+				return
+			}
+			defer d.Close()
+
+			res, err := d.CheckHost(in.Query, typ, zzC06Setts)
+			got = conc.project(&res, err)
+		})
+		if !fin {
+			w.put(map[string]any{"i": i, "admissible": false, "hang": true, "got": "no result within 20s"})
+
+			return
+		}
+
+		exp := []map[string]any{}
+		for _, o := range want {
+			exp = append(exp, map[string]any{"r": o.R, "canon": zzC06Name(o.Canon), "ips": o.IPs})
+		}
+
+		w.put(map[string]any{
+			"i": i, "admissible": zzC06Admissible(want, &got), "hang": false, "got": got, "expected": exp,
+		})
+	})
+}
